@@ -447,6 +447,17 @@ def find_refresh(fx):
 
 
 # -------------------------------------------------------------------------------------------------
+def is_ping_payload(fx, closure_def):
+    """the payload closure of a ping: it carries no message — all it captures is the one-shot sender for a unit answer
+    (whatever function builds it: `Addr::ping`, a synchronous `enqueue_ping` in front of it, ...)"""
+    f = fx.fn(closure_def) or {}
+    for _ in range(3):
+        if f.get("kind") == "closure" and f.get("upvars") == ["futures_channel::oneshot::Sender<()>"]:
+            return True
+        f = fx.fn(f.get("parent") or "") or {}
+    return False
+
+
 def norm(label):
     """Result / ControlFlow are the same thing for the monitor: Ok~Continue, Err~Break"""
     return label.replace("Res::Continue", "Res::Ok").replace("Res::Break", "Res::Err")
